@@ -92,18 +92,22 @@ pub fn run(tier: Tier, args: &[String]) -> i32 {
             mc_kit::machinery_error("C09: two executions of one history differ (harness)");
         }
     }
-    let mut completed: Option<(usize, usize)> = None;
+    let mut completed: Option<(usize, usize, bool)> = None;
     let mut total = explore::Stats::default();
     let mut runs = vec![];
     // thorough: the full tree one level deeper than quick with no bound on outstanding requests,
     // then the requested depth with at most `max_out` requests outstanding; which of the two was
     // completed is reported
-    let plan: Vec<(usize, usize)> = match tier {
-        Tier::Quick => vec![(depth, max_out)],
-        Tier::Thorough => vec![(depth.saturating_sub(1).max(1), usize::MAX), (depth, max_out)],
+    // (depth, bound on outstanding requests, undecodable-answer step in the alphabet)
+    let plan: Vec<(usize, usize, bool)> = match tier {
+        Tier::Quick => vec![(depth, max_out, true)],
+        Tier::Thorough => vec![
+            (depth.saturating_sub(1).max(1), usize::MAX, true),
+            (depth, max_out, false),
+        ],
     };
     let deadline_all = Deadline::new(limit);
-    for (d, mo) in plan.iter().copied() {
+    for (d, mo, garbage) in plan.iter().copied() {
         if deadline_all.expired() {
             break;
         }
@@ -116,17 +120,17 @@ pub fn run(tier: Tier, args: &[String]) -> i32 {
             fault: None,
             min_frontier: 64,
             record: false,
-            garbage: true,
+            garbage,
         };
         let v = V { rep: &rep };
         let st = explore::run(&cfg, &v, 24);
-        runs.push(json!({"depth": d,
+        runs.push(json!({"depth": d, "undecodable_answer_step": garbage,
                           "max_outstanding_bound": if mo == usize::MAX { json!("none") } else { json!(mo) },
                           "nodes": st.nodes, "completed": !st.cut_by_deadline,
                           "max_outstanding_seen": st.max_outstanding,
                           "wall_s_so_far": rep.elapsed()}));
         if !st.cut_by_deadline {
-            completed = Some((d, mo));
+            completed = Some((d, mo, garbage));
             total = st;
         } else if total.nodes == 0 {
             total = st;
@@ -136,7 +140,7 @@ pub fn run(tier: Tier, args: &[String]) -> i32 {
         mc_kit::machinery_error("C09: fewer than 2 non-trivial histories were explored");
     }
     let exhaustive = completed == plan.last().copied();
-    let (completed_depth, completed_max_out) = completed.unwrap_or((0, 0));
+    let (completed_depth, completed_max_out, _) = completed.unwrap_or((0, 0, false));
     let samples = total.samples.take().map(|s| s.into_value()).unwrap_or(json!([]));
     let coverage = json!({
         "states": total.nodes,
